@@ -9,3 +9,6 @@ def run(tier, seed):
     out = cfgmachine.merge(out, cfgmachine.run_machine("C01", ["C01_AllValid"], ["C01_Readback"], tier, seed + 7, schema="SchemaB"))
     # third: the generated schema family (every schema shape, generic candidate values)
     return cfgmachine.merge(out, cfgfamily.run_family("C01", ["C01_AllValid"], ["C01_Readback"], tier, seed))
+
+
+replay_file = cfgmachine.replay_file
